@@ -64,8 +64,6 @@ class WatchSpec(SeqSpec):
             for i in range(MAXPAR):
                 t = add(0, None)
                 threads[t]["prog"] = [["set", setv(t)] for _ in range(rng.choice([4, 6, 6, 8]))]
-                if rng.random() < 0.3:
-                    threads[t]["prog"].append(["value"])
                 grp.append(t)
             ops += [["spawn", t] for t in grp]
             ops.append(["release", 0])
